@@ -41,3 +41,10 @@ int deepfp_nofmt (int n) { function f = (: spin :); int i; for (i = 0; i < n; i+
 function gfp;
 int deepfp_keep (int n) { function f = (: spin :); int i; for (i = 0; i < n; i++) f = (: call_other, this_object (), "kind", f :); gfp = f; return n; }
 int fmt_kept () { return strlen (sprintf ("%O", gfp)); }
+// round 5 probes: time of one efun call
+int rx (int n, string pat) { string s = repeat_string ("a", n); int t = time_expression { regexp (({ s }), pat); }; return t; }
+int rx2 (int n, string pat) { string s = repeat_string ("a", n) + "cb"; int t = time_expression { regexp (({ s }), pat); }; return t; }
+int padt (int w) { int t = time_expression { catch (sprintf ("%*s", w, "x")); }; return t; }
+int padt2 (int w) { int t = time_expression { catch (sprintf ("%-*s|", w, "x")); }; return t; }
+int uniq (int n) { mixed *a = allocate (n); int i, t; for (i = 0; i < n; i++) a[i] = i; t = time_expression { unique_array (a, (: $1 :)); }; return t; }
+int expl (int n) { string s = repeat_string ("a,", n); int t = time_expression { explode (s, ","); }; return t; }
